@@ -16,10 +16,14 @@ HG_KIT = core.register(core.Kit(
     "H",
     mc_module="MC_HG", trace_module="TraceHG",
     universes={
+        "c18_quick": {"NN": 2, "EdgeIds": "{0, 100}", "MaxUid": 1, "MaxEdges": 2, "MaxAttr": 0, "MaxLevel": 99,
+                      "Rich": "FALSE", "WithFreeze": "TRUE"},
+        "c18_thorough": {"NN": 2, "EdgeIds": "{0, 1, 100}", "MaxUid": 2, "MaxEdges": 2, "MaxAttr": 0, "MaxLevel": 99,
+                         "Rich": "FALSE", "WithFreeze": "TRUE"},
         "quick": {"NN": 2, "EdgeIds": "{0, 1, 100}", "MaxUid": 2, "MaxEdges": 2, "MaxAttr": 0, "MaxLevel": 99,
-                  "Rich": "FALSE"},
+                  "Rich": "FALSE", "WithFreeze": "FALSE"},
         "thorough": {"NN": 2, "EdgeIds": "{0, 1, 100}", "MaxUid": 2, "MaxEdges": 2, "MaxAttr": 1, "MaxLevel": 99,
-                     "Rich": "TRUE"},
+                     "Rich": "TRUE", "WithFreeze": "TRUE"},
     },
     invariants=["InvIntegrity", "InvUidFresh"],
     properties=["PropAddsPreserve", "PropAddNodeToEdgePreserve", "PropSwapPreserves", "PropFrozen",
@@ -32,10 +36,14 @@ DHG_KIT = core.register(core.Kit(
     "DH",
     mc_module="MC_DHG", trace_module="TraceDHG",
     universes={
+        "c18_quick": {"NN": 2, "EdgeIds": "{0, 100}", "MaxUid": 1, "MaxEdges": 2, "MaxAttr": 0, "MaxLevel": 99,
+                      "Rich": "FALSE", "WithFreeze": "TRUE"},
+        "c18_thorough": {"NN": 2, "EdgeIds": "{0, 1, 100}", "MaxUid": 2, "MaxEdges": 2, "MaxAttr": 0, "MaxLevel": 99,
+                         "Rich": "FALSE", "WithFreeze": "TRUE"},
         "quick": {"NN": 2, "EdgeIds": "{0, 1, 100}", "MaxUid": 2, "MaxEdges": 2, "MaxAttr": 0, "MaxLevel": 99,
-                  "Rich": "FALSE"},
+                  "Rich": "FALSE", "WithFreeze": "FALSE"},
         "thorough": {"NN": 2, "EdgeIds": "{0, 1, 100}", "MaxUid": 2, "MaxEdges": 2, "MaxAttr": 1, "MaxLevel": 99,
-                     "Rich": "TRUE"},
+                     "Rich": "TRUE", "WithFreeze": "TRUE"},
     },
     invariants=["InvDiIntegrity", "InvUidFresh"],
     properties=["PropAddsPreserve", "PropAddNodeToEdgePreserve", "PropFrozen", "PropErrNoChange"],
@@ -47,10 +55,14 @@ SC_KIT = core.register(core.Kit(
     "SC",
     mc_module="MC_SC", trace_module="TraceSC",
     universes={
+        "c18_quick": {"NN": 3, "EdgeIds": "{0, 100}", "MaxUid": 4, "MaxEdges": 4, "MaxAttr": 0, "MaxLevel": 3,
+                      "Rich": "FALSE", "WithFreeze": "TRUE"},
+        "c18_thorough": {"NN": 3, "EdgeIds": "{0, 100}", "MaxUid": 4, "MaxEdges": 4, "MaxAttr": 0, "MaxLevel": 5,
+                         "Rich": "FALSE", "WithFreeze": "TRUE"},
         "quick": {"NN": 3, "EdgeIds": "{0, 100}", "MaxUid": 4, "MaxEdges": 4, "MaxAttr": 0, "MaxLevel": 4,
-                  "Rich": "FALSE"},
+                  "Rich": "FALSE", "WithFreeze": "FALSE"},
         "thorough": {"NN": 3, "EdgeIds": "{0, 1, 100}", "MaxUid": 5, "MaxEdges": 5, "MaxAttr": 0, "MaxLevel": 6,
-                     "Rich": "TRUE"},
+                     "Rich": "TRUE", "WithFreeze": "TRUE"},
     },
     invariants=["InvIntegrity", "InvUidFresh", "InvClosed", "InvNoDup", "InvNoEmpty"],
     properties=["PropAddsPreserve", "PropRemoveExact", "PropMaxOrder", "PropFrozen"],
